@@ -336,6 +336,9 @@ def case_facts(case):
     # the spline router's corridor has a rectangle of zero width or height (zero-size node, no node or layer spacing),
     # or the positioner is Brandes-Koepf, which is documented to ignore sizes (overlapping nodes: inverted rectangles)
     degenerate = zero or case.get("ns") == 0 or case.get("ls") == 0
+    # the network-simplex positioner works on an integer grid: a NodeSpacing below 0.5 is rounded away, neighbours may touch
+    if case.get("p4") == "nspos" and (case.get("nsd") or 1) > 1 and 2 * case.get("ns", 0) < (case.get("nsd") or 1):
+        degenerate = True
     return {"_degenerate_corridor_or_bk": bool(degenerate or str(case.get("p4", "")).startswith("bk") or case.get("p4") == "noop")}
 
 
